@@ -73,6 +73,29 @@ func main() {
 	prog, err := core.Load(*repo)
 	loadSecs := time.Since(t0).Seconds()
 	exit := 0
+	// thorough tier: the same rules are also decided on the program built for another platform (32-bit int, other
+	// GOOS) and the two sets of obligations are compared
+	const otherConfig = "GOOS=windows GOARCH=386"
+	var prog2 *core.Prog
+	var err2 error
+	if *tier == "thorough" && err == nil {
+		t1 := time.Now()
+		prog2, err2 = core.LoadEnv(*repo, "GOOS=windows", "GOARCH=386", "CGO_ENABLED=0")
+		loadSecs += time.Since(t1).Seconds()
+	}
+	run := func(c *core.Check, id string) {
+		defer func() {
+			if os.Getenv("WRV_NORECOVER") != "" {
+				return
+			}
+			if r := recover(); r != nil {
+				// a panic of the checker is not silence: fail closed
+				ru := c.Rule("checker", "the checker must complete", 0)
+				ru.Unknown("checker panic", "-", fmt.Sprint(r))
+			}
+		}()
+		props.Registry[id](c)
+	}
 	for _, id := range ids {
 		if err != nil {
 			core.WriteLoadFailure(*verif, id, *tier, seed, err)
@@ -82,19 +105,17 @@ func main() {
 		c := core.NewCheck(id, *tier, prog, known)
 		c.Seed = seed
 		c.LoadSecs = loadSecs
-		func() {
-			defer func() {
-				if os.Getenv("WRV_NORECOVER") != "" {
-					return
-				}
-				if r := recover(); r != nil {
-					// a panic of the checker is not silence: fail closed
-					ru := c.Rule("checker", "the checker must complete", 0)
-					ru.Unknown("checker panic", "-", fmt.Sprint(r))
-				}
-			}()
-			props.Registry[id](c)
-		}()
+		run(c, id)
+		if *tier == "thorough" {
+			if err2 != nil {
+				ru := c.Rule("X", "thorough tier: the rules are also decided on the "+otherConfig+" build", 0)
+				ru.Unknown("load "+otherConfig, "-", err2.Error())
+			} else {
+				c2 := core.NewCheck(id, *tier, prog2, known)
+				run(c2, id)
+				c.CrossCheck(c2, otherConfig)
+			}
+		}
 		if code := c.Finish(*verif); code > exit {
 			exit = code
 		}
